@@ -716,6 +716,73 @@ def options_stream(run, drv):
         run.corr("class options (decorator / keywords / brackets)", [str(c) for c in case], impl, model)
 
 
+def pytree_stream(run, drv):
+    """`torch.utils._pytree` on tensorclass instances: flatten context (keys, placeholders), unflatten, `tree_map`: class, key set,
+    entry kinds and placeholders of the rebuilt instance against the model (`pytreeFlatten` / `pytreeUnflatten`); oracle: the
+    round trip reads like the original, `tree_map` acts on the instance as on its tensordict."""
+    from torch.utils import _pytree as PT
+    reqs, pend = [], []
+    for cname in ("D1", "S1", "Ac", "Nc", "D2", "T1"):
+        cls = Z.BEHAVIOUR_CLASSES[cname]
+        fields = sorted(cls.__expected_keys__)
+        for variant in ("plain", "o-set", "lazy", "locked"):
+            if variant == "lazy":
+                tc = Z.make_lazy(cls)
+            else:
+                tc = Z.make(cls)
+                if variant == "o-set" and "o" in fields:
+                    tc.o = torch.ones(2, 3)
+                if variant == "locked":
+                    tc.lock_()
+            case = [cname, variant]
+            run.case(("pytree",) + tuple(case))
+            try:
+                with time_limit(20), warnings.catch_warnings():
+                    warnings.simplefilter("ignore")
+                    leaves, spec = PT.tree_flatten(tc)
+                    back = PT.tree_unflatten(leaves, spec)
+                    mapped = PT.tree_map(lambda x: x + 1 if isinstance(x, torch.Tensor) else x, tc)
+                    mapped_td = PT.tree_map(lambda x: x + 1 if isinstance(x, torch.Tensor) else x, tc._tensordict)
+            except TimeoutError:
+                raise
+            except Exception as e:  # noqa: BLE001
+                run.oracle_fail("pytree", case, f"raises {type(e).__name__}: {str(e)[:120]}", fingerprint=f"pytree:{variant}:raises:{err_class(e)}")
+                continue
+            why = None
+            if type(back) is not cls:
+                why = f"tree_unflatten(tree_flatten(tc)) is a {type(back).__name__}"
+            elif B.field_view(back) != B.field_view(tc):
+                why = "the round trip does not read like the original"
+            elif type(mapped) is not cls:
+                why = f"tree_map gives a {type(mapped).__name__}"
+            elif B.canon(mapped._tensordict) != B.canon(mapped_td):
+                why = "tree_map on the tensorclass differs from tree_map on its tensordict"
+            else:
+                bad = B.fields_readable(back) + B.fields_readable(mapped)
+                if bad:
+                    why = f"read paths disagree: {bad}"
+            if why:
+                run.oracle_fail("pytree", case, why, fingerprint=f"pytree:{variant}:{why[:40]}")
+            else:
+                run.oracle_ok("pytree")
+            if variant == "lazy":
+                continue              # (a lazy stack flattens through its own node type: not the modelled path)
+            es = [[k, _entry_desc(tc._tensordict, k)] for k in tc._tensordict.keys()]
+            nt = [[k, None if x is None else "v"] for k, x in tc._non_tensordict.items()]
+            reqs.append(sx("c15.pytree", fields, es, nt, len(es)))
+            impl = ["ok", sorted(back._tensordict.keys()), sorted([k, _entry_desc(back._tensordict, k)[0]] for k in back._tensordict.keys()),
+                    B.nt_sorted_desc(back)]
+            pend.append((case, impl))
+    for (case, impl), ans in zip(pend, drv.ask_many(reqs)):
+        m = parse_sx(ans)
+        if m[0] == "err":
+            model = ["err", m[1]]
+        else:
+            state = m[2]
+            model = ["ok", sorted(m[1][1]), sorted([k, e[0]] for k, e in state[0][1:]), sorted([[k, "none" if x == "none" else "v"] for k, x in state[1][1]])]
+        run.corr("pytree(flatten/unflatten)", case, impl, model)
+
+
 def zero_d_setitem(run):
     """indexed assignment on a tensorclass WITHOUT batch dims (`tc[None] = v`, `tc[True] = v`, `tc[...] = v`, `tc[()] = v`):
     as the same assignment on the plain tensordict (the `None` / `True` shortcut of `_setitem`)"""
